@@ -62,6 +62,19 @@ class TE(str, _enum.Enum):
     T3 = "T3"
 
 
+_SENTINEL = object()
+
+
+class _Handle:
+    """an application object that refuses to be copied (a connection, a lock, a GUI handle)"""
+
+    def __deepcopy__(self, memo):
+        raise TypeError("cannot be copied")
+
+    def __reduce__(self):
+        raise TypeError("cannot be pickled")
+
+
 DECL = {}  # id(randomizer object) -> parameters as *declared* by the generator (never read back from the object)
 
 
@@ -218,6 +231,10 @@ def gen_def(rng):
         if rng.random() < 0.15:
             s["zero"] = 0
             s["empty"] = ""
+        if rng.random() < 0.2:
+            # values that are objects of the application (compared by identity, not copyable): they are handed on as they are
+            s["marker"] = _SENTINEL
+            s["handle"] = _Handle()
         if rng.random() < 0.2:
             # attribute names are arbitrary strings: only a *leading* colon marks a generator option
             s["xml:lang"] = "en"
@@ -405,6 +422,13 @@ def run_case(case, res):
     from nutree import Tree
     from nutree.typed_tree import TypedTree
 
+    # the process time zone is part of the case: a third of the builds run west of UTC, a third east, a third in UTC (dates
+    # declared in a structure definition are calendar dates - the zone of the machine must not move them)
+    import os as _os
+    import time as _time
+
+    _os.environ["TZ"] = case.get("tz") or "UTC"
+    _time.tzset()
     sd = gen_def(rng_for(case["def_seed"], "c20-def"))
     class UserTree(Tree):  # user subclasses: the result must be of that class; "typed" means "is a TypedTree"
         pass
@@ -489,7 +513,8 @@ def run_shard(spec, res):
         ds = rng.randrange(10**9)
         for rs in (rng.randrange(10**6), rng.randrange(10**6)):
             for cls in ("plain", "typed", "typed_sub" if j % 2 else "plain_sub"):
-                run_case({"def_seed": ds, "rand_seed": rs, "cls": cls, "failed_build_first": (j + rs) % 4 == 0}, res)
+                run_case({"def_seed": ds, "rand_seed": rs, "cls": cls, "failed_build_first": (j + rs) % 4 == 0,
+                          "tz": ["UTC", "PST8PDT", "Pacific/Kiritimati"][(j + rs) % 3]}, res)
         if res.expired():
             break
 
